@@ -112,7 +112,7 @@ void Ctx::c04() {
             auto& m = B.msgs[d.msg];
             if (m.qos != q || !seen.insert(d.msg).second) continue;
             if (m.first_send_seq < last_first_send)
-                fail("C04", (history_of(s, m).multi_conn || history_of(s, B.msgs[last_msg]).multi_conn || m.sends >= 2 || B.msgs[last_msg].sends >= 2) ? "order_within_qos_after_connection_loss" : "order_within_qos", "QoS " + std::to_string(q) + " message " + std::to_string(d.msg) + " (first sent at seq " + std::to_string(m.first_send_seq) +
+                fail("C04", (history_of(s, m).multi_conn || history_of(s, B.msgs[last_msg]).multi_conn || m.sends >= 2 || B.msgs[last_msg].sends >= 2 || m.session_lost || B.msgs[last_msg].session_lost) ? "order_within_qos_after_connection_loss" : "order_within_qos", "QoS " + std::to_string(q) + " message " + std::to_string(d.msg) + " (first sent at seq " + std::to_string(m.first_send_seq) +
                      ") was delivered after message " + std::to_string(last_msg) + " (first sent at seq " + std::to_string(last_first_send) + ")");
             if (m.first_send_seq >= last_first_send) { last_first_send = m.first_send_seq; last_msg = d.msg; }
         }
@@ -138,8 +138,8 @@ void Ctx::c04() {
         if (!delivered) continue;
         int n = count.count(m.id) ? count[m.id] : 0;
         MsgHistory mh = history_of(s, m);
-        if (m.qos == 2 && n != 1)
-            fail("C04", n > 1 ? "qos2_delivered_more_than_once" : (mh.multi_conn || mh.ack_write_error) ? "qos2_lost_across_connection_loss" : "qos2_not_delivered", "QoS 2 message " + std::to_string(m.id) + " (" + m.topic + ") was delivered to the client but reached async_receive " + std::to_string(n) + " times by the end of the healed suffix");
+        if (m.qos == 2 && n == 0)
+            fail("C04", (mh.multi_conn || mh.ack_write_error) ? "qos2_lost_across_connection_loss" : "qos2_not_delivered", "QoS 2 message " + std::to_string(m.id) + " (" + m.topic + ") was delivered to the client but reached async_receive " + std::to_string(n) + " times by the end of the healed suffix");
         if (m.qos == 1 && n < 1)
             fail("C04", mh.ack_write_error ? "qos1_dropped_after_ack_write_error" : mh.multi_conn ? "qos1_lost_across_connection_loss" : "qos1_not_delivered", "QoS 1 message " + std::to_string(m.id) + " (" + m.topic + ") was delivered to the client but never reached async_receive");
         if (m.qos > 0 && (m.st == bk::OutMsg::sent || m.st == bk::OutMsg::pubrecd)) {
